@@ -265,7 +265,7 @@ theorem prepT_ok {T : List Name} {files : Files} (hH : inH T files = true) :
         intro name' c1 k' body' hn' hfind' hc1
         exact prepT_ok hH f (name' :: inl) name' c1 k' body'
           (by have := rem_lt hn' (find_mem_names hfind'); omega) hfind' hc1
-      obtain ⟨b', c', he, hp, hc'⟩ := prepL_ok hH hJ body false c hok.1.1 hok.1.2 hok.2 hc
+      obtain ⟨b', c', he, hp, hc'⟩ := prepL_ok hH hJ body false c hok.1.1.1 hok.1.1.2 hok.1.2 hc
       refine ⟨b', (name, b') :: c', by simp [he], hp, ?_⟩
       intro n bb hm
       rcases List.mem_cons.mp hm with heq | hm'
@@ -293,5 +293,11 @@ theorem loadOK_of_inH {T : List Name} {files : Files} (hH : inH T files = true) 
         exact prepT_ok hH (prepFuel files) [name] name c fk body
           (by have := rem_le_names files [name]; simp only [prepFuel]; omega) hfind hc
     · simp only [ne_eq, hk, not_false_eq_true, if_true]
+
+theorem textOK_of_inH {T : List Name} {files : Files} (hH : inH T files = true) : TextOK files := by
+  intro name body hfind
+  have hok := find_fileOk hH hfind
+  simp only [fileOk, Bool.and_eq_true] at hok
+  exact hok.2
 
 end Genshi.Incl
